@@ -314,3 +314,35 @@ func LateSyncFailure() LateResult {
 	time.Sleep(2 * time.Minute)
 	return out
 }
+
+// ShortDeadlines: KeyGen / Sign called with contexts whose deadline has already passed or is about to
+// (real synchroniser, nobody answers): every call returns an error soon after its deadline.
+func ShortDeadlines(op string) []Call {
+	var out []Call
+	for _, d := range []time.Duration{-time.Second, 0, time.Nanosecond, time.Millisecond, 100 * time.Millisecond, 999 * time.Millisecond, time.Second, 1500 * time.Millisecond} {
+		e := newEnv()
+		e.p.SetStoredData([]byte("x"))
+		var cl Call
+		done := make(chan struct{})
+		go func() {
+			ctx, cancel := context.WithDeadline(context.Background(), time.Now().Add(d))
+			defer cancel()
+			var err error
+			if op == "keygen" {
+				_, err = e.p.KeyGen(ctx, 3, 2)
+			} else {
+				_, err = e.p.Sign(ctx, world.Sha([]byte("d")), "a")
+			}
+			e.mu.Lock()
+			cl = Call{Returned: true, Err: err, At: time.Since(e.start)}
+			e.mu.Unlock()
+			close(done)
+		}()
+		time.Sleep(d + 30*time.Second)
+		e.mu.Lock()
+		out = append(out, cl)
+		e.mu.Unlock()
+		time.Sleep(time.Minute)
+	}
+	return out
+}
